@@ -88,12 +88,12 @@ def case_imec(ctx, kind, band, n, extra_imro):
         ctx.oblige("range_volts_is_factor_times_maxint", core.eq(rv[c], s2v[c] * MAXINT[kind]), detail={"c": c})
 
 
-def case_nidq(ctx, mn, ma, xa, dw):
+def case_nidq(ctx, mn, ma, xa, dw, acq=None):
     import spikeglx
     gmn = ctx.int("niMNGain", 1, 10000)
     gma = ctx.int("niMAGain", 1, 10000)
     T = ctx.real("fileTimeSecs", 0, 100000)
-    txt = sglx.nidq_meta_text(mn, ma, xa, dw, mn_gain=gmn, ma_gain=gma, ns=sglx.S(T))
+    txt = sglx.nidq_meta_text(mn, ma, xa, dw, mn_gain=gmn, ma_gain=gma, ns=sglx.S(T), acq=acq)
     F, binp = sglx.install_recording("/d/x.nidq", txt)
     sr = ctx.call("reader_init", spikeglx.Reader, binp, open=False)
     md = sr.meta
@@ -176,6 +176,9 @@ def cases(tier):
     cs.append(Case("imec_3A_lf_subset", "case_imec", {"kind": "3A", "band": "lf", "n": b["sites"], "extra_imro": 2}))
     for (mn, ma, xa, dw) in ((0, 0, 1, 1), (2, 1, 2, 1), (1, 0, 0, 1)) + (((3, 2, 1, 1),) if tier == "thorough" else ()):
         cs.append(Case(f"nidq_{mn}{ma}{xa}{dw}", "case_nidq", {"mn": mn, "ma": ma, "xa": xa, "dw": dw}))
+    # only part of the acquired nidq channels saved: the acquired layout differs from the saved one
+    cs.append(Case("nidq_2121_of_4232_acquired", "case_nidq", {"mn": 2, "ma": 1, "xa": 2, "dw": 1, "acq": [4, 2, 3, 2]}))
+    cs.append(Case("nidq_0011_of_1121_acquired", "case_nidq", {"mn": 0, "ma": 0, "xa": 1, "dw": 1, "acq": [1, 1, 2, 1]}))
     cs.append(Case("write_read", "case_write_read", {"nlist": b["list_len"]}))
     return cs
 
@@ -242,7 +245,7 @@ from symex import sglx
 import spikeglx
 mn, ma, xa, dw = {mn}, {ma}, {xa}, {dw}
 gmn, gma = {m['niMNGain']}, {m['niMAGain']}
-txt = sglx.nidq_meta_text(mn, ma, xa, dw, mn_gain=gmn, ma_gain=gma, ns='10.5')
+txt = sglx.nidq_meta_text(mn, ma, xa, dw, mn_gain=gmn, ma_gain=gma, ns='10.5', acq={params.get('acq')!r})
 d = pathlib.Path(tempfile.mkdtemp()); (d / 'x.nidq.meta').write_text(txt)
 sr = spikeglx.Reader(d / 'x.nidq.meta', open=False)
 k = 5.0 / 32768
